@@ -114,6 +114,15 @@ Theorem C13_reader_computed : forall c r k f g cs, 0 < c -> tr_wf c r -> ~ In k 
 Proof. exact tr_reader_computed. Qed.
 Print Assumptions C13_reader_computed.
 
+(* a computed column that is not requested (after the repair of /repo func is then not called): for ANY func, row-wise or
+   not, failing or not, the read through the computed reader is the read of the inner reader, whole and chunked *)
+Theorem C13_reader_computed_skip : forall c r k f cs, 0 < c -> tr_wf c r -> NoDup cs -> incl cs (tr_names r) ->
+  tr_req r cs -> ~ In k cs ->
+  tr_read (TrComputed r k f) (Some cs) = tr_read r (Some cs)
+  /\ tr_stream (TrComputed r k f) c (Some cs) = tr_stream r c (Some cs).
+Proof. exact tr_computed_skip. Qed.
+Print Assumptions C13_reader_computed_skip.
+
 (* any tree of readers: chunked read = chunked delivery of the whole read = requested columns, in
    the requested order, of the table the tree stands for (tr_names / tr_drows) *)
 Theorem C13_reader_tree : forall c r cs, 0 < c -> tr_wf c r -> NoDup cs -> incl cs (tr_names r) ->
@@ -134,13 +143,27 @@ Theorem C13_reader_chunks_eq_read : forall c r cs, 0 < c -> tr_wf c r -> NoDup c
 Proof. exact tr_reader_chunks_eq_read. Qed.
 Print Assumptions C13_reader_chunks_eq_read.
 
-(* columns=None on a reader tree without computed columns: all columns, in table order *)
-Theorem C13_reader_none : forall c r, 0 < c -> tr_wf c r -> tr_plain r ->
+(* columns=None on ANY well-formed reader tree, computed readers included wherever they sit in the tree (computed
+   over mapped over joined over computed ...): all columns, in table order; the chunked read is a chunked delivery
+   of the whole read.  (tr_wf asks of a computed reader only that its column name is new and func works row by row.) *)
+Theorem C13_reader_none : forall c r, 0 < c -> tr_wf c r ->
   exists chs, tr_chunks r c None = Ok chs
     /\ tr_read r None = Ok (ch_whole (tr_names r) (tr_drows r))
     /\ tr_chunked c (tr_names r) (tr_drows r) chs.
 Proof. exact tr_reader_none. Qed.
 Print Assumptions C13_reader_none.
+
+(* the computed reader spelled out (fixed finding computed-reader:columns=None — after the repair of /repo the inner
+   reader is read with columns=None and the computed column is added): all columns of the inner table, then func
+   row by row as the last column, whole and chunked *)
+Theorem C13_reader_computed_none : forall c r k f g, 0 < c -> tr_wf c r -> ~ In k (tr_names r) ->
+  (forall names rows, f names rows = Ok (map (g names) rows)) ->
+  exists chs, tr_chunks (TrComputed r k f) c None = Ok chs
+    /\ tr_read (TrComputed r k f) None
+       = Ok (ch_whole (tr_names r ++ [k]) (map (fun row => row ++ [g (tr_names r) row]) (tr_drows r)))
+    /\ tr_chunked c (tr_names r ++ [k]) (map (fun row => row ++ [g (tr_names r) row]) (tr_drows r)) chs.
+Proof. exact tr_reader_computed_none. Qed.
+Print Assumptions C13_reader_computed_none.
 
 (* cell-level reading of tr_select: requested columns, requested order, unchanged cells *)
 Theorem C13_reader_cells : forall c r cs, tr_wf c r -> incl cs (tr_names r) ->
@@ -150,12 +173,6 @@ Theorem C13_reader_cells : forall c r cs, tr_wf c r -> incl cs (tr_names r) ->
        nth_error srow j = nth_error row p.
 Proof. exact tr_select_cell. Qed.
 Print Assumptions C13_reader_cells.
-
-(* finding computed-reader:columns=None — the code raises, whole and chunked *)
-Theorem C13_computed_none_refuted : forall r k f c,
-  tr_read (TrComputed r k f) None = Err EType /\ tr_chunks (TrComputed r k f) c None = Err EType.
-Proof. exact tr_computed_none. Qed.
-Print Assumptions C13_computed_none_refuted.
 
 (* ======================= buffered writer ======================= *)
 (* for every buffer size >= 1 (from_suffix only builds a BufferedWriter for b >= 2), every buffer
@@ -253,7 +270,7 @@ Proof.
     + apply rq_computed. apply rq_frame.
     + apply rq_mapped with (ocs := [2]); [reflexivity|]. apply rq_parquet. discriminate.
   - apply ri_joined. intros r [<-|[<-|[]]].
-    + apply ri_computed; [reflexivity | apply ri_frame].
+    + apply ri_computed; [intros _; reflexivity | apply ri_frame].
     + apply ri_mapped with (ocs := [2]); [reflexivity|]. apply ri_parquet.
 Qed.
 
@@ -267,10 +284,10 @@ Proof. split; vm_compute; reflexivity. Qed.
 
 Example C13_ex_none :
   let r := TrJoined [TrCsv ex_ta; TrMapped (TrParquet ex_tb [2;1]%nat [1;1;1]%nat) [(2,5)]%nat] in
-  tr_wf 2 r /\ tr_plain r
+  tr_wf 2 r
   /\ tr_read r None = Ok (ch_whole [0;1;5;3] [[10;11;12;13];[20;21;22;23];[30;31;32;33]]%Z).
 Proof.
-  destruct C13_ex_table_wf as [Ha Hb]. cbv zeta. split; [|split].
+  destruct C13_ex_table_wf as [Ha Hb]. cbv zeta. split.
   - apply wf_joined.
     + discriminate.
     + apply Forall_cons; [apply wf_csv; exact Ha|]. apply Forall_cons; [|apply Forall_nil].
@@ -279,10 +296,37 @@ Proof.
       * simpl. repeat constructor; simpl; intuition discriminate.
     + intros r [<-|[<-|[]]]; reflexivity.
     + simpl. repeat constructor; simpl; intuition discriminate.
-  - apply pl_joined. apply Forall_cons; [apply pl_csv|]. apply Forall_cons; [|apply Forall_nil].
-    apply pl_mapped. apply pl_parquet.
   - vm_compute. reflexivity.
 Qed.
+
+(* columns=None with computed readers inside and on top of the tree:
+   computed( mapped( ex_reader = joined(computed(frame), mapped(parquet)), 9 -> 4 ), column 8 := 6 ) *)
+Example C13_ex_none_computed :
+  let r := TrComputed (TrMapped ex_reader [(9,4)]%nat) 8%nat (tr_fn_const 6%Z) in
+  tr_wf 2 r
+  /\ tr_read r None
+     = Ok (ch_whole [0;1;4;5;3;8] [[10;11;7;12;13;6];[20;21;7;22;23;6];[30;31;7;32;33;6]]%Z)
+  /\ tr_chunks r 2 None
+     = Ok [ {| ch_index := [0;1]; ch_names := [0;1;4;5;3;8];
+               ch_rows := [[10;11;7;12;13;6];[20;21;7;22;23;6]]%Z |};
+            {| ch_index := [2]; ch_names := [0;1;4;5;3;8]; ch_rows := [[30;31;7;32;33;6]]%Z |} ].
+Proof.
+  cbv zeta. split; [|split].
+  - apply wf_computed with (g := fun _ _ => 6%Z).
+    + apply wf_mapped; [exact C13_ex_wf|]. simpl. repeat constructor; simpl; intuition discriminate.
+    + simpl. intuition discriminate.
+    + reflexivity.
+  - vm_compute. reflexivity.
+  - vm_compute. reflexivity.
+Qed.
+
+(* a func returning the wrong number of values (ValueError when called) does no harm while its column is not requested *)
+Example C13_ex_skip :
+  let r := TrComputed (TrFrame ex_ta) 9%nat (tr_fn_short 5%Z) in
+  tr_read r (Some [1;0]) = Ok (ch_whole [1;0] [[11;10];[21;20];[31;30]]%Z)
+  /\ tr_chunks r 2 (Some [1;0]) = tr_chunks (TrFrame ex_ta) 2 (Some [1;0])
+  /\ tr_read r (Some [1;9]) = Err EValue.
+Proof. cbv zeta. split; [|split]; vm_compute; reflexivity. Qed.
 
 Example C13_ex_buffered :
   bw_run 2 BwDicts [[1;2;3];[];[4];[5;6]]
